@@ -18,7 +18,7 @@ MCMonth == \E a \in Hd, b \in Hd, p \in Hd, shift \in {I(0), I(1)}, fe \in {I(0)
               \* in the feed round meat may be moved between months
               meat |-> IF hb.kind = "animals" THEN (IF hmon = 0 THEN Add(Faith(a, b, p), shift) ELSE Sub(Faith(a, b, p), shift))
                        ELSE Faith(a, b, p),
-              milk |-> Mul(Mul(p, I(610)), Dec(5000, 1)), feedCharged |-> fc, feedEaten |-> fe, feedOffered |-> I(1), feedRound2 |-> I(1), grassEaten |-> Zero, grass |-> I(1)])
+              milk |-> Mul(Mul(p, I(610)), Dec(5000, 1)), feedCharged |-> fc, feedEaten |-> fe, feedOffered |-> I(1), feedRound2 |-> I(1), grassEaten |-> Zero, grass |-> I(1), grass0 |-> I(1), ratio1 |-> I(1), ratioYear |-> I(1)])
 MCEnd == hb.kind # "none" /\ ~hended /\ EndS
 Spec == HInit /\ [][MCBegin \/ MCMonth \/ MCEnd]_hvars
 TotalsTracked == hmon = 2 /\ hb.kind = "humans" => Eq(meatOffered, meatDerived)
